@@ -15,7 +15,8 @@ Record fixes := {
   fx_subsdur : bool;        (* C08-timesubsdur.diff *)
   fx_snr : bool;            (* C08-snr-range.diff *)
   fx_traffic_idx : bool;    (* C08-traffic-index.diff *)
-  fx_chunkdur : bool;       (* C08-chunkdur.diff *)
+  fx_chunkdur : bool;       (* C08-chunkdur.diff: chunked mode needs 0 <= ato < segment duration, else 400 (NOT applied) *)
+  fx_chunk_cap : bool;      (* /repo 1ce6842: chunkSegment computes its capacity hint only for chunkDur > 0 (no division by a URL value any more) *)
   fx_subs_startnr : bool;   (* C08-timesubs-startnr.diff *)
   fx_status_startnr : bool; (* C08-statuscode-startnr.diff *)
   fx_status_cycle : bool;   (* C08-statuscode-cycle.diff *)
@@ -25,33 +26,34 @@ Record fixes := {
   fx_urlgen_drms : bool     (* C08-urlgen-drms.diff *)
 }.
 
-(** The tree as it is now. *)
+(** The tree as it is now (the lead applied the repairs on 2026-10-01, see /verif/.work/fixes_note.md). *)
 Definition current : fixes := {|
-  fx_stoprel := false;
-  fx_annexI := false;
-  fx_loss := false;
-  fx_periods := false;
-  fx_subsdur := false;
-  fx_snr := false;
-  fx_traffic_idx := false;
-  fx_chunkdur := false;
-  fx_subs_startnr := false;
-  fx_status_startnr := false;
-  fx_status_cycle := false;
-  fx_drm := false;
-  fx_kid := false;
-  fx_urlgen_create := false;
-  fx_urlgen_drms := false
+  fx_stoprel := true;          (* /repo 03244c2 *)
+  fx_annexI := true;           (* /repo 34590b2 *)
+  fx_loss := true;             (* /repo f528894 *)
+  fx_periods := true;          (* /repo 9fbd9f7 *)
+  fx_subsdur := true;          (* /repo 860f338 *)
+  fx_snr := true;              (* /repo bed0ae2 *)
+  fx_traffic_idx := true;      (* /repo b801303 *)
+  fx_chunkdur := false;        (* not applied: ato_inf / ato >= segment duration still accepted in chunked mode *)
+  fx_chunk_cap := true;        (* /repo 1ce6842 *)
+  fx_subs_startnr := true;     (* /repo eaa7039 *)
+  fx_status_startnr := true;   (* /repo c58c8e1 *)
+  fx_status_cycle := true;     (* /repo 2c72d16 *)
+  fx_drm := true;              (* /repo fb86caa *)
+  fx_kid := true;              (* /repo 6239920 *)
+  fx_urlgen_create := true;    (* /repo 4a5b51b *)
+  fx_urlgen_drms := true       (* /repo 44cd2ab *)
 |}.
 
 Definition all_fixed : fixes := {|
   fx_stoprel := true; fx_annexI := true; fx_loss := true; fx_periods := true; fx_subsdur := true;
-  fx_snr := true; fx_traffic_idx := true; fx_chunkdur := true; fx_subs_startnr := true;
+  fx_snr := true; fx_traffic_idx := true; fx_chunkdur := true; fx_chunk_cap := true; fx_subs_startnr := true;
   fx_status_startnr := true; fx_status_cycle := true; fx_drm := true; fx_kid := true;
   fx_urlgen_create := true; fx_urlgen_drms := true |}.
 
 Definition none_fixed : fixes := {|
   fx_stoprel := false; fx_annexI := false; fx_loss := false; fx_periods := false; fx_subsdur := false;
-  fx_snr := false; fx_traffic_idx := false; fx_chunkdur := false; fx_subs_startnr := false;
+  fx_snr := false; fx_traffic_idx := false; fx_chunkdur := false; fx_chunk_cap := false; fx_subs_startnr := false;
   fx_status_startnr := false; fx_status_cycle := false; fx_drm := false; fx_kid := false;
   fx_urlgen_create := false; fx_urlgen_drms := false |}.
